@@ -16,6 +16,8 @@ structure Tables where
   hashes : List ((HashKind × Nat) × Bytes × Bytes) := [] -- (kind,id) ↦ (value, preimage)
   rawpkh : List (Nat × Bytes) := []
   sigs : List (Bytes × Bytes) := []                      -- valid (pubkey, signature) pairs
+  dsigs : List (Nat × Bytes × Bytes) := []               -- valid (sighash domain, pubkey, signature)
+  tapcommits : List (Bytes × Bytes × Bytes) := []        -- verified (control block, script, output key)
 
 def Tables.keyEnv (t : Tables) : KeyEnv where
   ser k := match t.keys.lookup k with | some (s, _, _) => s | none => []
@@ -44,7 +46,13 @@ def defLine (t : Tables) (args : List String) : Option Tables :=
   | ["sig", pk, sg] => do
     let pk ← Hash.ofHex pk; let sg ← Hash.ofHex sg
     pure { t with sigs := (pk, sg) :: t.sigs }
-  | ["clearsigs"] => some { t with sigs := [] }
+  | ["clearsigs"] => some { t with sigs := [], dsigs := [], tapcommits := [] }
+  | ["dsig", dom, pk, sg] => do
+    let dom ← dom.toNat?; let pk ← Hash.ofHex pk; let sg ← Hash.ofHex sg
+    pure { t with dsigs := (dom, pk, sg) :: t.dsigs }
+  | ["tapcommit", cb, sc, ok] => do
+    let cb ← Hash.ofHex cb; let sc ← Hash.ofHex sc; let ok ← Hash.ofHex ok
+    pure { t with tapcommits := (cb, sc, ok) :: t.tapcommits }
   | _ => none
 
 /-! ### canonical output strings -/
